@@ -413,10 +413,8 @@ class Body:
                         return sub
                     if l in names and not self._prov:
                         return names[l]
-                    if o["c"] == "const" and "int" in o:
-                        return "const:%d" % o["int"]
-                    if o["c"] == "const" and "item" in o:
-                        return "const:" + o["item"]
+                    if o["c"] == "const" and ("int" in o or "item" in o or "promoted" in o):
+                        return self.const_name(o)
                     if l in names:
                         return names[l]
                     return "const"
@@ -470,26 +468,34 @@ class Body:
                 base = base + "[]"
         return normalize_path(base)
 
+    def const_name(self, o):
+        """rendering of a constant operand; promoted constants are resolved to the items they are built from"""
+        if "int" in o:
+            return "const:%d" % o["int"]
+        if "promoted" in o and isinstance(o["promoted"], int):
+            pl = self.rec.get("promoted") or []
+            if o["promoted"] < len(pl):
+                pr = pl[o["promoted"]]
+                if pr.get("items"):
+                    return "const:" + pr["items"][-1]
+                if pr.get("ints"):
+                    return "const:%s" % pr["ints"][-1]
+        if "item" in o:
+            return "const:" + o["item"]
+        return "const"
+
     def _opath_d(self, o, depth, seen):
         if o["c"] in ("copy", "move"):
             return self.place_path(o["p"], True, depth, seen)
         if o["c"] == "const":
-            if "int" in o:
-                return "const:%d" % o["int"]
-            if "item" in o:
-                return "const:" + o["item"]
-            return "const"
+            return self.const_name(o)
         return "?"
 
     def opath(self, o, deep=True):
         if o["c"] in ("copy", "move"):
             return self.place_path(o["p"], deep)
         if o["c"] == "const":
-            if "int" in o:
-                return "const:%d" % o["int"]
-            if "item" in o:
-                return "const:" + o["item"]
-            return "const"
+            return self.const_name(o)
         return "?"
 
     def eval_ints(self, o, depth=0):
